@@ -454,6 +454,8 @@ def execute(spec, send, recv):
     out["faults"] = dict(world.faults)
     out["vtime"] = round(world.clock.now, 6)
     out["steps"] = world.steps.n
+    sc = world.sched
+    out["sched"] = {"threads": len(sc.threads), "switches": sc.switches, "decisions": sc.decisions, "plan_used": sc.plan_used}
     h = hashlib.sha256()
     h.update(json.dumps(world.events, sort_keys=True, default=repr).encode())
     h.update(json.dumps({k: v for k, v in out.items() if k in ("ops", "replies", "violation", "end")},
